@@ -111,6 +111,7 @@ structure St (σ κ : Type) where
   atticReg : List ((Nat × Comps) × Option σ)     -- persisted attic registry
   nextAttic : Nat                           -- fresh attic names
   ops : List (Op σ)                         -- micro-op log (newest first)
+  complete : Bool := false                  -- the last run of the step finished (the state holds its variant id)
 
 variable {σ κ : Type}
 
@@ -302,23 +303,30 @@ def sameDirs (old : List (OldEntry σ)) (new : List (NewEntry σ)) : Bool :=
   old.all (fun e => unchanged new e) &&
   new.all (fun n => old.any (fun e => e.dir == n.dir))
 
+/-- the final `setDirectoryState(checkoutState)` (with the variant id) after a successful run -/
+def markComplete (r : St σ κ × Option Err) : St σ κ × Option Err :=
+  match r.2 with
+  | none => ({ r.1 with complete := true }, none)
+  | some x => (r.1, some x)
+
 /-- `_cookCheckoutStep` (not --build-only).  `indet`: the step is not deterministic (a checkout
 reason always exists).  Returns the final state and the error, if any. -/
 def cook (sem : ScmSem σ κ) (fl : Flags) (indet : Bool) (new : List (NewEntry σ)) (st0 : St σ κ) :
     St σ κ × Option Err :=
   -- `_constructDir`: a missing workspace is created and its state reset
   let created := st0.wsMissing
-  let st0 := if created then { st0 with wsMissing := false, old := [], plain := [] } else st0
+  let st0 := if created then { st0 with wsMissing := false, old := [], plain := [], complete := false } else st0
   let st := if fl.cleanCheckout then cleanInvalidate sem new st0 else st0
-  if !created && !indet && sameDirs st.old new then (st, none) else
+  -- a step that failed half way has no variant id in its state: "recipe changed", it runs again
+  if st.complete && (!created && !indet && sameDirs st.old new) then (st, none) else
   match loopAll sem fl.atticEnabled new (sortedOld st.old) st [] with
   | (st1, some x) => (st1, some x)
   | (st1, none) =>
     match collision new st1 with
     | some d => (st1, some (.collides d))
     | none =>
-      let st2 := emit (.setDirState (new.map (·.dir))) { st1 with old := new.map asOld }
-      runScms sem new st2
+      let st2 := emit (.setDirState (new.map (·.dir))) { st1 with old := new.map asOld, complete := false }
+      markComplete (runScms sem new st2)
 
 /-! ## bob clean -/
 
@@ -357,6 +365,6 @@ def srcExpendable (sem : ScmSem σ κ) (st : St σ κ) : Bool :=
 /-- `bob clean -s` (no --force) on a source workspace that no package uses any more -/
 def cleanSrc (sem : ScmSem σ κ) (dryRun : Bool) (st : St σ κ) : St σ κ :=
   if dryRun || st.wsMissing || !srcExpendable sem st then st else
-  { (emit .rmWorkspace st) with old := [], plain := [], wsMissing := true }
+  { (emit .rmWorkspace st) with old := [], plain := [], wsMissing := true, complete := false }
 
 end Checkout
